@@ -41,6 +41,17 @@ def mutual_jump(rng):
     return p + idiom_print(rng)
 
 
+def self_return(rng):
+    """one command whose area chooses between a label and the return heart: it first takes the label (registered by the
+    command before it, same count), becoming the latest jump origin, and later - stack drained, NaN goes right - the
+    return heart, which lands on the command itself, for ever: only the jump budget ends it (seeded change
+    C10-self-return-not-charged; witness 형..... 흣... 혀엉...💕 하앙...💕?♡)"""
+    a, b = rng.choice([(2, 3), (3, 2), (1, 6), (2, 2), (2, 5)])
+    h = rng.choice(range(2, 13))
+    p = [(0, 1, rng.randint(1, 9), None), (3, 1, 3, None), (0, a, b, leaf(h)), (1, a, b, (rng.choice([0, 0, 1]), leaf(h), leaf(13)))]
+    return p + (idiom_print(rng) if rng.random() < 0.5 else [])
+
+
 def run_shard(args):
     cases, timeout = args
     with tempfile.NamedTemporaryFile("w", suffix=".cases", delete=False, dir=BUILD) as f:
@@ -69,6 +80,9 @@ def main(tier, seed):
             elif r < 0.5: p = small_loop(rng) + idiom_print(rng)
             elif r < 0.6: p = idiom_loop(rng, rng.choice([99, 100, 101, 150])) + idiom_read(rng)
             else: p = rand_prog(rng)
+            mix = random.Random(seed * 1000003 + k)          # own stream: the main one stays as it was
+            if mix.random() < 0.03: p = self_return(mix)
+            if k == 0: p = [(0, 1, 5, None), (3, 1, 3, None), (0, 2, 3, leaf(8)), (1, 2, 3, (0, leaf(8), leaf(13)))]
             progs.append(p)
         cases = []
         for p in progs:
